@@ -40,8 +40,12 @@ func sqlTextCase(cfg *config, id int, q string, expect string, tag string) {
 			return
 		}
 		tr.Out("%s", tokLine(toks))
-		outcome = parseReal(toks)
+		cur := -1
+		outcome, cur = parseRealCur(toks)
 		tr.Out("%s", outcome)
+		if strings.HasPrefix(outcome, "ok ") {
+			tr.Tilde(fmt.Sprintf("cur %d", cur))
+		}
 	})
 	k := strings.SplitN(outcome, " ", 3)
 	cls := k[0]
@@ -61,8 +65,12 @@ func sqlTokCase(cfg *config, id int, toks []sql.Token) {
 	tr.Op("%s", tokLine(toks))
 	outcome := ""
 	wdog.Run(func() {
-		outcome = parseReal(toks)
+		cur := -1
+		outcome, cur = parseRealCur(toks)
 		tr.Out("%s", outcome)
+		if strings.HasPrefix(outcome, "ok ") {
+			tr.Tilde(fmt.Sprintf("cur %d", cur))
+		}
 	})
 	k := strings.SplitN(outcome, " ", 3)
 	cls := k[0]
@@ -691,6 +699,10 @@ func runSQL(cfg *config) {
 		"UPDATE t SET a = 1, b = 'x' WHERE c = 2", "DELETE FROM t", "CREATE TABLE (a int)", "CREATE TABLE t (a int,)", "SELECT count(*), avg(a) FROM t",
 		"SELECT avg(*) FROM t", "SELECT count(a FROM t", "SELECT a AS FROM t", "SELECT a b c FROM t", "SELECT * FROM t JOIN", "SELECT * FROM t LEFT JOIN u ON",
 		"SELECT * FROM t a JOIN t b ON a.id = b.id RIGHT JOIN c ON b.x = c.x AND c.y > 1 OR c.z = 2",
+		// a statement and then more (the tail used to be dropped in silence)
+		"DELETE FROM p x WHERE x.id = 1", "UPDATE p SET g = 7 + 1 WHERE id = 1", "UPDATE p SET name = -5 WHERE id = 1", "SELECT * FROM t AS x WHERE x.a = 2",
+		"SELECT p.id FROM p, q WHERE p.id = q.id", "INSERT INTO p VALUES (1,'a',1) (2,'b',1)", "SELECT * FROM p WHERE name = 'it''s'", "DELETE FROM p WHERE id = 1; DELETE FROM q",
+		"SELECT g, count(*) FROM p GROUP BY g HAVING count(*) > 1", "UPDATE t SET a = 5 WHER a = 7", "DELETE FROM t\u00a0WHERE a = 1", "DELETE FROM t;", "DELETE FROM t;;", "DELETE FROM t ; x",
 	}
 	for _, q := range corpus {
 		id++
@@ -767,6 +779,21 @@ func runSQL(cfg *config) {
 				}
 				id++
 				sqlTextCase(cfg, id, strings.Join(w, " "), "", "mutated")
+			}
+			// a complete statement followed by more input: never a shorter statement in silence
+			tails := []string{"x", "x WHERE a = 1", ", u", "AS x", "- 1", "+ 1", "(2, 'b')", "HAVING a > 1", "UNION SELECT 1", "IS NULL", "IN (1, 2)",
+				"'s'", "FULL JOIN u ON a = b", "; DELETE FROM u", "WHER a = 1", "#", "LIMIT 7 LIMIT 8", "\u00a0WHERE a = 1"}
+			for k := 0; k < 3; k++ {
+				id++
+				sqlTextCase(cfg, id, strings.Join(g.w, " ")+" "+tails[rr.Intn(len(tails))], "", "tail")
+			}
+			for _, semis := range []string{";", " ;", ";;", " ; ; "} {
+				// (a SELECT without FROM refuses any token behind its select list, semicolons included:
+				// an old refusal, not a silent cut; the console never passes the semicolon on)
+				if rr.Chance(1, 2) && !strings.Contains(expect, "(from)") {
+					id++
+					sqlTextCase(cfg, id, strings.Join(g.w, " ")+semis, expect, "semicolons")
+				}
 			}
 			// a span of words said twice (a repeated clause), in place or at the end
 			for k := 0; k < 4; k++ {
